@@ -158,6 +158,8 @@ class Env(object):
                     margs['polymorphic_on'] = column
             if c.get('polymorphic_identity') is not None:
                 margs['polymorphic_identity'] = c['polymorphic_identity']
+            if c.get('with_polymorphic'):
+                margs['with_polymorphic'] = c['with_polymorphic']
             if margs:
                 attrs['__mapper_args__'] = margs
             cls = type(c['name'], (parent,), attrs)
